@@ -115,7 +115,12 @@ func (r *Reader) Read() (seq.Sequence, error) {
 
 func (r *Reader) header(line []byte) (seqio.SequenceAppender, error) {
 	s := r.t.Clone().(seqio.SequenceAppender)
-	fieldMark := bytes.IndexAny(line, " \t")
+	// The description starts after the first blank that follows the
+	// prefix: the prefix may hold blanks itself.
+	fieldMark := bytes.IndexAny(line[len(r.IDPrefix):], " \t")
+	if fieldMark >= 0 {
+		fieldMark += len(r.IDPrefix)
+	}
 	var err error
 	if fieldMark < 0 {
 		err = s.SetName(string(line[len(r.IDPrefix):]))
